@@ -37,11 +37,15 @@ DESIGN_REF = "DESIGN.md section 6, C06"
 EXEC = "arn:aws:states:local:0123456789:execution:m:e0"
 FUNCS = {"echo": ["echo"], "wrap": ["wrap"], "boom": ["fail", "Boom"], "bang": ["fail", "Bang"], "slow3": ["slow", 3], "sib": ["wrap"], "sibslow": ["slow", 2],
          "flaky": ["flaky", ["Flaky"]], "failodd": ["fail_if", "i", 1], "failall": ["fail", "Boom"],
-         "slowboom": ["seq", [["err", "Boom", "late", {"latency": 2}]]], "inner": ["fail", "Inner.Err"]}
+         "slowboom": ["seq", [["err", "Boom", "late", {"latency": 2}]]], "inner": ["fail", "Inner.Err"], "zero": ["const", 0], "empty": ["const", {}], "nil": ["const", []]}
 
 
 def sibling_body(rng, names, kind=None):
-    kind = kind or rng.choice(["task", "chain", "wait", "slow", "nested", "instant", "caught", "caught"])
+    kind = kind or rng.choice(["task", "chain", "wait", "slow", "nested", "instant", "caught", "caught", "falsy", "falsy"])
+    if kind == "falsy":
+        # a sibling that has FINISHED, with a result that is falsy in Python ({}, [], 0, "", false): it is done, not outstanding
+        v = copy.deepcopy(rng.choice(F.FALSY))
+        return F.chain([(names(), F.P(Result=v))]) if rng.random() < 0.6 else F.chain([(names(), F.T(rng.choice(["zero", "empty", "nil"])))])
     if kind == "caught":
         # a sibling whose own Task error was caught INSIDE the branch and which is now busy in its handler (a slow Task) when another branch fails
         first, handler = names(), names()
@@ -84,7 +88,7 @@ def make(rng, kind, n, failing, handlers, sib_kind=None, fail_delay=None, siblin
             elif i in failing:
                 branches.append(failing_body(rng, names, delay=(3 if siblings_done_first else fail_delay)))
             else:
-                branches.append(sibling_body(rng, names, "instant" if siblings_done_first else sib_kind))
+                branches.append(sibling_body(rng, names, rng.choice(["instant", "falsy"]) if siblings_done_first else sib_kind))
         st = {"Type": "Parallel", "Branches": branches}
         data = {"x": 1}
     else:
